@@ -158,6 +158,10 @@ type c07Sess struct {
 	w     *watcher
 	nPfx  int
 	extra []*c07Remote
+	// the speaker described by the last OPEN (for the UPDATEs it sends)
+	remoteAS      int
+	twoByte       bool
+	inEstablished bool // reported state before the current event
 }
 
 func c07Start(t *testing.T, cfg c07Cfg) *c07Sess {
@@ -288,21 +292,32 @@ func (ss *c07Sess) send(rem *c07Remote, b []byte) {
 	_, _ = rem.mine.Write(b)
 }
 
-func c07Open(as uint32, id string, hold int, version int) []byte {
-	as2 := uint16(as)
-	if as > 65535 {
-		as2 = bgp.AS_TRANS
+// c07OpenWire builds an OPEN from its wire-level AS fields: the 2-octet My-AS field and,
+// if hascap, a 4-octet-AS capability (code 65) carrying capas.
+func c07OpenWire(myas int, hascap bool, capas int, id string, hold int, version int) []byte {
+	caps := []bgp.ParameterCapabilityInterface{bgp.NewCapMultiProtocol(bgp.RF_IPv4_UC)}
+	if hascap {
+		caps = append(caps, bgp.NewCapFourOctetASNumber(uint32(capas)))
 	}
-	caps := []bgp.ParameterCapabilityInterface{
-		bgp.NewCapMultiProtocol(bgp.RF_IPv4_UC),
-		bgp.NewCapFourOctetASNumber(as),
-		bgp.NewCapRouteRefresh(),
-	}
-	m, _ := bgp.NewBGPOpenMessage(as2, uint16(hold), netip.MustParseAddr(id),
+	caps = append(caps, bgp.NewCapRouteRefresh())
+	m, _ := bgp.NewBGPOpenMessage(uint16(myas), uint16(hold), netip.MustParseAddr(id),
 		[]bgp.OptionParameterInterface{bgp.NewOptionParameterCapability(caps)})
 	m.Body.(*bgp.BGPOpen).Version = uint8(version)
 	b, _ := m.Serialize()
 	return b
+}
+
+// c07MyAS is the My-AS field a well-behaved speaker of AS `as` sends (RFC 6793)
+func c07MyAS(as int) int {
+	if as > 65535 {
+		return bgp.AS_TRANS
+	}
+	return as
+}
+
+// c07Open: the OPEN of a well-behaved 4-octet capable speaker
+func c07Open(as uint32, id string, hold int, version int) []byte {
+	return c07OpenWire(c07MyAS(int(as)), true, int(as), id, hold, version)
 }
 
 func c07Keepalive() []byte { b, _ := bgp.NewBGPKeepAliveMessage().Serialize(); return b }
@@ -317,7 +332,9 @@ func c07RouteRefresh() []byte {
 	return b
 }
 
-// update announces n fresh /24 prefixes
+// update announces n fresh /24 prefixes the way the speaker the last OPEN described would:
+// empty AS_PATH + LOCAL_PREF towards an internal peer, its own AS otherwise, 2-octet AS_PATH
+// encoding if its OPEN carried no 4-octet-AS capability
 func (ss *c07Sess) update(n int, ibgp bool) []byte {
 	nlri := make([]bgp.PathNLRI, 0, n)
 	for i := 0; i < n; i++ {
@@ -327,17 +344,26 @@ func (ss *c07Sess) update(n int, ibgp bool) []byte {
 	}
 	nh, _ := bgp.NewPathAttributeNextHop(netip.MustParseAddr(c07PeerAddr))
 	var attrs []bgp.PathAttributeInterface
-	if ibgp {
+	switch {
+	case ibgp || !ss.inEstablished:
+		// outside ESTABLISHED the daemon still parses with the options of the previous session
+		// (AS width): use the encoding that does not depend on them
 		attrs = []bgp.PathAttributeInterface{
 			bgp.NewPathAttributeOrigin(0),
 			bgp.NewPathAttributeAsPath(nil),
 			nh,
 			bgp.NewPathAttributeLocalPref(100),
 		}
-	} else {
+	case ss.twoByte:
 		attrs = []bgp.PathAttributeInterface{
 			bgp.NewPathAttributeOrigin(0),
-			bgp.NewPathAttributeAsPath([]bgp.AsPathParamInterface{bgp.NewAs4PathParam(bgp.BGP_ASPATH_ATTR_TYPE_SEQ, []uint32{65002})}),
+			bgp.NewPathAttributeAsPath([]bgp.AsPathParamInterface{bgp.NewAsPathParam(bgp.BGP_ASPATH_ATTR_TYPE_SEQ, []uint16{uint16(ss.remoteAS)})}),
+			nh,
+		}
+	default:
+		attrs = []bgp.PathAttributeInterface{
+			bgp.NewPathAttributeOrigin(0),
+			bgp.NewPathAttributeAsPath([]bgp.AsPathParamInterface{bgp.NewAs4PathParam(bgp.BGP_ASPATH_ATTR_TYPE_SEQ, []uint32{uint32(ss.remoteAS)})}),
 			nh,
 		}
 	}
@@ -378,20 +404,49 @@ func (ss *c07Sess) listPeer() (sess, admin int, found bool) {
 
 type c07Ev struct {
 	kind                string // connect outgoing open keepalive update refresh notification badheader close tick enable disable shutdown reset delete
-	ver, as, id, hold   int    // open / outgoing
+	ver, as, id, hold   int    // open / outgoing; as = value of the 4-octet-AS capability
+	myas                int    // … the 2-octet My-AS field
+	nocap               bool   // … OPEN without the 4-octet-AS capability
 	n                   int    // update: prefixes, badheader: kind, tick: seconds
 }
 
 func (e c07Ev) line() string {
 	switch e.kind {
 	case "open", "outgoing":
-		return fmt.Sprintf("ev %s %d %d %d %d", e.kind, e.ver, e.as, e.id, e.hold)
+		return fmt.Sprintf("ev %s %s", e.kind, e.wire())
 	case "update", "tick":
 		return fmt.Sprintf("ev %s %d", e.kind, e.n)
 	case "badheader":
 		return fmt.Sprintf("ev badheader %d", e.n)
 	}
 	return "ev " + e.kind
+}
+
+// wire renders the OPEN for the model: version, My-AS, capability present, its value, id, hold
+func (e c07Ev) wire() string {
+	hc := 1
+	if e.nocap {
+		hc = 0
+	}
+	return fmt.Sprintf("%d %d %d %d %d %d", e.ver, e.myas, hc, e.as, e.id, e.hold)
+}
+
+// eff is the AS the OPEN announces per RFC 6793: the capability's value if there is one,
+// the My-AS field otherwise (restated here for the oracle, independent of model and code)
+func (e c07Ev) eff() int {
+	if e.nocap {
+		return e.myas
+	}
+	return e.as
+}
+
+// c07OpenEv: OPEN of a well-behaved 4-octet capable speaker of AS `as`
+func c07OpenEv(kind string, as, id, hold int) c07Ev {
+	return c07Ev{kind: kind, ver: 4, as: as, myas: c07MyAS(as), id: id, hold: hold}
+}
+
+func (e c07Ev) bytes() []byte {
+	return c07OpenWire(e.myas, !e.nocap, e.as, c07ID(e.id), e.hold, e.ver)
 }
 
 func c07ID(id int) string {
@@ -430,9 +485,9 @@ func (ss *c07Sess) apply(e c07Ev, ibgp bool) {
 	case "connect":
 		ss.connect()
 	case "outgoing":
-		ss.outgoing(c07Open(uint32(e.as), c07ID(e.id), e.hold, e.ver))
+		ss.outgoing(e.bytes())
 	case "open":
-		ss.send(ss.cur(), c07Open(uint32(e.as), c07ID(e.id), e.hold, e.ver))
+		ss.send(ss.cur(), e.bytes())
 	case "keepalive":
 		ss.send(ss.cur(), c07Keepalive())
 	case "update":
@@ -549,9 +604,9 @@ func c07RfcNotif(state int, e c07Ev, cfg c07Cfg, ribBefore int) (string, bool) {
 			switch {
 			case e.ver != 4:
 				return "2-1", true
-			case e.id == 0 || (e.as == int(cfg.localAS) && e.id == c07IDNum(cfg.localID)):
+			case e.id == 0 || (e.eff() == int(cfg.localAS) && e.id == c07IDNum(cfg.localID)):
 				return "2-3", true
-			case cfg.peerAS != 0 && e.as != int(cfg.peerAS):
+			case cfg.peerAS != 0 && e.eff() != int(cfg.peerAS):
 				return "2-2", true
 			case e.hold == 1 || e.hold == 2:
 				return "2-6", true
@@ -715,7 +770,7 @@ func (or *c07Oracle) ssState() int { return c07CurState() }
 func c07GenOpen(r *vRand, cfg c07Cfg, kind string) c07Ev {
 	e := c07Ev{kind: kind, ver: 4, id: c07IDNum("2.2.2.2"), as: int(cfg.peerAS)}
 	if cfg.peerAS == 0 {
-		e.as = r.pick(65002, 65002, 65001, 65010)
+		e.as = r.pick(65002, 65002, 70002, int(cfg.localAS), 65010)
 	}
 	e.hold = r.pick(0, 3, 9, 10, 30, 30, 90, 90, 180)
 	if kind == "open" && r.chance(30) {
@@ -727,12 +782,22 @@ func c07GenOpen(r *vRand, cfg c07Cfg, kind string) c07Ev {
 		case 2:
 			e.as, e.id = int(cfg.localAS), c07IDNum(cfg.localID) // own AS + own identifier
 		case 3:
-			e.as = 65003
+			e.as = r.pick(65003, 70003)
 		case 4:
 			e.hold = r.pick(1, 2)
 		case 5:
 			e.id = c07IDNum(cfg.localID) // same identifier, other AS: fine for eBGP (RFC 6286)
 		}
+	}
+	// wire form: a well-behaved speaker by default; sometimes a 2-octet-only speaker (no
+	// capability 65: the My-AS field counts), sometimes a My-AS field that disagrees with the
+	// capability (the capability counts)
+	e.myas = c07MyAS(e.as)
+	switch {
+	case r.chance(12):
+		e.nocap = true
+	case r.chance(6):
+		e.myas = r.pick(int(cfg.localAS)&0xffff, 65002, 65003, bgp.AS_TRANS, int(cfg.peerAS)&0xffff)
 	}
 	return e
 }
@@ -834,13 +899,15 @@ func c07Scenario(t *testing.T, o *vOut, cfg c07Cfg, seed uint64, maxLen int, scr
 				e = c07Ev{kind: "tick", n: 1} // the hand-over is only modelled in ACTIVE
 			}
 			if (e.kind == "open" && before.fsm == 3) || e.kind == "outgoing" {
-				ibgp = e.as == int(cfg.localAS)
+				ibgp = e.eff() == int(cfg.localAS)
+				ss.remoteAS, ss.twoByte = e.eff(), e.nocap
 				hold = min(e.hold, cfg.hold)
 			}
 			tb := ss.rec.now()
 			if i == 0 {
 				synctest.Wait()
 			} else {
+				ss.inEstablished = before.fsm == 5
 				ss.apply(e, ibgp)
 			}
 			after := ss.observe()
@@ -982,8 +1049,9 @@ func TestVerifC07(t *testing.T) {
 		n, maxLen = 9000, 14
 	}
 	for i := 0; i < n; i++ {
-		cfg := c07Cfg{localAS: 65001, localID: "1.1.1.1", idleAfterReset: 30}
-		cfg.peerAS = uint32(r.pick(65002, 65002, 65002, 65002, 0, 65001))
+		// {2-octet, 4-octet} local AS x {eBGP 2-octet, eBGP 4-octet, iBGP, any} peer AS
+		cfg := c07Cfg{localAS: uint32(r.pick(65001, 65001, 65001, 70000, 70000)), localID: "1.1.1.1", idleAfterReset: 30}
+		cfg.peerAS = uint32(r.pick(65002, 65002, 65002, 70002, 70002, 0, int(cfg.localAS), int(cfg.localAS)))
 		cfg.hold = r.pick(90, 90, 30, 9, 10, 240)
 		if r.chance(30) {
 			cfg.prefixLimit = r.pick(1, 2, 3, 5)
@@ -1006,10 +1074,30 @@ func TestVerifC07(t *testing.T) {
 
 func c07Direct(t *testing.T, o *vOut, r *vRand) {
 	ids := []int{1, 2, c07IDNum("1.1.1.1"), c07IDNum("1.1.1.2"), c07IDNum("2.2.2.2"), c07IDNum("128.0.0.1"), c07IDNum("255.255.255.255")}
-	ass := []int{1, 2, 65001, 65002, 65535, 65536, 70000, 4294967295}
-	n := 400
+	ass := []int{1, 2, 23456, 65001, 65002, 65535, 65536, 70000, 70002, 4294967295}
+	n := 600
 	if o.thorough {
-		n = 4000
+		n = 6000
+	}
+	// wire form of the remote's AS: well-behaved 4-octet speaker / 2-octet-only speaker (no
+	// capability 65) / My-AS field disagreeing with the capability
+	wire := func(e *c07Ev) string {
+		e.myas = c07MyAS(e.as)
+		switch {
+		case r.chance(20):
+			e.nocap = true
+			if r.chance(50) {
+				e.myas = r.pick(65001, 65002, 4464, 23456) // 4464 = 70000 & 0xffff
+			}
+			return "nocap"
+		case r.chance(15):
+			e.myas = r.pick(65001, 65002, 4464, 23456, 1)
+			return "myas-differs"
+		}
+		if e.as > 65535 {
+			return "as4"
+		}
+		return "as2"
 	}
 	for i := 0; i < n; i++ {
 		lid, rid := ids[r.intn(len(ids))], ids[r.intn(len(ids))]
@@ -1020,41 +1108,65 @@ func c07Direct(t *testing.T, o *vOut, r *vRand) {
 		if r.chance(20) {
 			ras = las
 		}
+		e := c07Ev{ver: 4, as: ras, id: rid, hold: 90}
+		kind := wire(&e)
 		g := &oc.Global{Config: oc.GlobalConfig{As: uint32(las), RouterId: netip.MustParseAddr(c07ID(lid))}}
 		nb := &oc.Neighbor{Config: oc.NeighborConfig{LocalAs: uint32(las), PeerAs: uint32(ras), NeighborAddress: netip.MustParseAddr(c07PeerAddr)}}
 		f := newFSM(g, nb, bgp.BGP_FSM_IDLE, slog.Default())
-		m, _ := bgp.ParseBGPMessage(c07Open(uint32(ras), c07ID(rid), 90, 4))
+		m, _ := bgp.ParseBGPMessage(e.bytes())
 		got := f.isDominant(m.Body.(*bgp.BGPOpen))
-		o.ask(map[bool]string{true: "1", false: "0"}[got], "dom %d %d %d %d", lid, las, rid, ras)
+		hc := 1
+		if e.nocap {
+			hc = 0
+		}
+		o.ask(map[bool]string{true: "1", false: "0"}[got], "dom %d %d %d %d %d %d", lid, las, rid, e.myas, hc, e.as)
 		// RFC 4271 6.8 + RFC 6286 2.3: the connection initiated by the speaker with the higher
 		// identifier survives, on equal identifiers the higher AS
-		want := uint64(lid)<<32|uint64(las) > uint64(rid)<<32|uint64(ras)
+		want := uint64(lid)<<32|uint64(las) > uint64(rid)<<32|uint64(e.eff())
 		if got != want {
-			o.fail("collision-rule", fmt.Sprintf("local %d/%d remote %d/%d: isDominant=%v", lid, las, rid, ras, got))
+			o.fail("collision-rule", fmt.Sprintf("local %d/%d remote id %d OPEN %+v: isDominant=%v", lid, las, rid, e, got))
 		}
-		o.stat(fmt.Sprintf("dominant_%v", got), 1)
+		o.stat(fmt.Sprintf("dominant_%v_%s", got, kind), 1)
 	}
+	// ValidateOpenMsg over {2-octet, 4-octet} local AS x {any, iBGP, eBGP 2-octet, eBGP 4-octet}
+	// expected peer AS x announced AS {expected, own, other} x identifier {0, own, other} x wire form
 	for i := 0; i < n; i++ {
-		las, lid := 65001, c07IDNum("1.1.1.1")
-		pas := r.pick(0, 65002, 65002, 65001)
-		e := c07Ev{ver: r.pick(4, 4, 4, 4, 3, 5, 0), as: r.pick(65002, 65002, 65001, 65003, 70000), id: r.pick(lid, lid, c07IDNum("2.2.2.2"), c07IDNum("2.2.2.2"), 0),
-			hold: r.pick(0, 1, 2, 3, 4, 30, 90, 65535)}
-		m, _ := bgp.ParseBGPMessage(c07Open(uint32(e.as), c07ID(e.id), e.hold, e.ver))
+		las, lid := r.pick(65001, 65001, 70000, 70000, 4200000000), c07IDNum("1.1.1.1")
+		pas := r.pick(0, las, las, 65002, 70002)
+		e := c07Ev{ver: r.pick(4, 4, 4, 4, 4, 4, 3, 5, 0), id: r.pick(lid, lid, c07IDNum("2.2.2.2"), c07IDNum("2.2.2.2"), 0),
+			hold: r.pick(0, 1, 2, 3, 4, 30, 30, 90, 90, 65535)}
+		e.as = r.pick(pas, pas, las, las, 65002, 65003, 70002, 70003)
+		if e.as == 0 {
+			e.as = r.pick(las, 65002, 70002)
+		}
+		kind := wire(&e)
+		if kind == "myas-differs" && pas != 0 && r.chance(50) {
+			e.myas = c07MyAS(pas) // the field alone would satisfy the expected AS, the capability does not
+		}
+		m, _ := bgp.ParseBGPMessage(e.bytes())
 		_, err := bgp.ValidateOpenMsg(m.Body.(*bgp.BGPOpen), uint32(pas), uint32(las), netip.MustParseAddr(c07ID(lid)))
 		got := "ok"
 		if err != nil {
 			me := err.(*bgp.MessageError)
 			got = fmt.Sprintf("%d-%d", me.TypeCode, me.SubTypeCode)
 		}
-		o.ask(got, "vopen %d %d %d %d %d %d %d", las, lid, pas, e.ver, e.as, e.id, e.hold)
-		want, has := c07RfcNotif(3, c07Ev{kind: "open", ver: e.ver, as: e.as, id: e.id, hold: e.hold}, c07Cfg{localAS: uint32(las), localID: c07ID(lid), peerAS: uint32(pas)}, 0)
+		o.ask(got, "vopen %d %d %d %s", las, lid, pas, e.wire())
+		e.kind = "open"
+		want, has := c07RfcNotif(3, e, c07Cfg{localAS: uint32(las), localID: c07ID(lid), peerAS: uint32(pas)}, 0)
 		if !has {
 			want = "ok"
 		}
 		if got != want {
-			o.fail("open-validation", fmt.Sprintf("peer-as %d OPEN %+v: got %s want %s", pas, e, got, want))
+			o.fail("open-validation", fmt.Sprintf("local AS %d id %s, expected peer AS %d, OPEN %+v (announced AS %d): got %s want %s", las, c07ID(lid), pas, e, e.eff(), got, want))
 		}
 		o.stat("vopen_"+got, 1)
+		peer := "ebgp"
+		if e.eff() == las {
+			peer = "ibgp"
+		}
+		if e.ver == 4 && e.id == lid {
+			o.stat(fmt.Sprintf("vopen_ownid_%s_local%s_%s", peer, map[bool]string{true: "as4", false: "as2"}[las > 65535], kind), 1)
+		}
 	}
 }
 
@@ -1063,7 +1175,7 @@ func c07Direct(t *testing.T, o *vOut, r *vRand) {
 
 func c07Corpus(t *testing.T, o *vOut) bool {
 	base := c07Cfg{localAS: 65001, peerAS: 65002, localID: "1.1.1.1", hold: 90, idleAfterReset: 30}
-	op := func(hold int) c07Ev { return c07Ev{kind: "open", ver: 4, as: 65002, id: c07IDNum("2.2.2.2"), hold: hold} }
+	op := func(hold int) c07Ev { return c07OpenEv("open", 65002, c07IDNum("2.2.2.2"), hold) }
 	ev := func(k string) c07Ev { return c07Ev{kind: k} }
 	tick := func(n int) c07Ev { return c07Ev{kind: "tick", n: n} }
 	scripts := [][]c07Ev{
@@ -1084,7 +1196,7 @@ func c07Corpus(t *testing.T, o *vOut) bool {
 		// reset: IdleHoldTimeAfterReset
 		{ev("connect"), op(90), ev("keepalive"), ev("reset"), tick(29), tick(1)},
 		// hand-over by the outgoing-connection manager in ACTIVE
-		{c07Ev{kind: "outgoing", ver: 4, as: 65002, id: c07IDNum("2.2.2.2"), hold: 30}, ev("keepalive"), tick(30)},
+		{c07OpenEv("outgoing", 65002, c07IDNum("2.2.2.2"), 30), ev("keepalive"), tick(30)},
 	}
 	for _, sc := range scripts {
 		c07Scenario(t, o, base, 1, len(sc)+1, sc)
@@ -1092,6 +1204,16 @@ func c07Corpus(t *testing.T, o *vOut) bool {
 	pl := base
 	pl.prefixLimit = 3
 	c07Scenario(t, o, pl, 1, 9, []c07Ev{ev("connect"), op(90), ev("keepalive"), {kind: "update", n: 3}, {kind: "update", n: 1}, tick(6), ev("enable"), tick(5)})
+	// RFC 6286: our own identifier from an INTERNAL peer is refused whatever the width of the AS
+	// (4-octet AS: My-AS = AS_TRANS, the real AS only in capability 65); from an external one it is fine
+	for _, las := range []int{65001, 70000} {
+		ib := c07Cfg{localAS: uint32(las), peerAS: uint32(las), localID: "1.1.1.1", hold: 90, idleAfterReset: 30}
+		c07Scenario(t, o, ib, 1, 4, []c07Ev{ev("connect"), c07OpenEv("open", las, c07IDNum("1.1.1.1"), 90), tick(6)})
+		c07Scenario(t, o, ib, 1, 6, []c07Ev{ev("connect"), c07OpenEv("open", las, c07IDNum("2.2.2.2"), 90), ev("keepalive"), {kind: "update", n: 1}, tick(1)})
+		eb := ib
+		eb.peerAS = 70002
+		c07Scenario(t, o, eb, 1, 6, []c07Ev{ev("connect"), c07OpenEv("open", 70002, c07IDNum("1.1.1.1"), 90), ev("keepalive"), {kind: "update", n: 1}, tick(1)})
+	}
 	c07CollisionSilentIncoming(t, o, base)
 	c07PrefixLimitGR(t, o)
 	return true
@@ -1146,6 +1268,7 @@ func c07PrefixLimitGR(t *testing.T, o *vOut) {
 		ss.send(ss.pas, b)
 		ss.send(ss.pas, c07Keepalive())
 		synctest.Wait()
+		ss.remoteAS, ss.inEstablished = 65002, true
 		ss.send(ss.pas, ss.update(3, false))
 		synctest.Wait()
 		ss.send(ss.pas, ss.update(1, false))
